@@ -32,6 +32,10 @@ def bounds(tier):
 def cases(tier, seed):
     b = bounds(tier)
     yield ('giant', 210000 if tier == 'quick' else 420000)
+    # medium scope: hundreds of cycles (every per-level count on both sides of 128 / 256 / 1024), periodic selections
+    for K in ((130, 194, 259, 400, 1030) if tier == 'quick' else (130, 131, 194, 258, 259, 387, 400, 515, 1030, 2051, 4100)):
+        for period, off in ((2, 0), (2, 1), (3, 0), (3, 2), (5, 1), (K, 1), (K + 1, 0)):
+            yield ('medium', K, period, off)
     for v in enum.bool_vectors(1, b['sel_len']):
         yield ('sel', v)
     for K, menu in b['struct']:
@@ -123,6 +127,60 @@ def check_giant(case):
     return Outcome(cls='giant', transitions=trans, viols=viols, nontrivial=True)
 
 
+def check_medium(case):
+    """Hundreds of cycles: the six projections against a vectorised reference (unselected / unlabelled items stay missing)."""
+    import emd._cycles_support as cs
+    from emd.cycles import get_subset_vector, get_chain_vector
+    _, K, period, off = case
+    sel = (np.arange(K) % period != off)          # cycle `off` (mod period) is NOT selected
+    cv = np.repeat(np.arange(K), 3)
+    cv[2::3] = -1                                  # two samples per cycle, then one unlabelled sample
+    d = 'medium structure: %d cycles, cycles == %d (mod %d) unselected, 2 samples per cycle + 1 unlabelled' % (K, off, period)
+    viols = []
+    try:
+        sv = np.asarray(get_subset_vector(sel))
+        chv = np.asarray(get_chain_vector(sv))
+    except Exception as e:
+        return Outcome(cls='medium', viols=[('medium:raise:%s' % type(e).__name__, '%s raised %r' % (d, e))])
+    rsub = np.where(sel, np.cumsum(sel) - 1, -1)
+    nsub = int(sel.sum())
+    cyc = np.where(sel)[0]
+    rchain = np.cumsum(np.r_[0, np.diff(cyc) != 1]) if nsub else np.zeros(0, dtype=int)
+    if not np.array_equal(sv.reshape(-1), rsub):
+        return Outcome(cls='medium', viols=[('medium:get_subset_vector', '%s: subset vector wrong' % d)])
+    if not np.array_equal(chv.reshape(-1), rchain):
+        return Outcome(cls='medium', viols=[('medium:get_chain_vector', '%s: chain vector wrong' % d)])
+    nchain = int(rchain.max()) + 1 if nsub else 0
+    cycvals = 1.0 + np.arange(K) * 0.5
+    subvals = 3.0 + np.arange(nsub) * 0.25
+    chvals = 7.0 + np.arange(nchain) * 0.125
+    sub_on_cyc = np.where(rsub >= 0, subvals[np.clip(rsub, 0, None)] if nsub else np.nan, np.nan)
+    ch_on_sub = chvals[rchain] if nsub else np.zeros(0)
+    ch_on_cyc = np.where(rsub >= 0, ch_on_sub[np.clip(rsub, 0, None)] if nsub else np.nan, np.nan)
+
+    def to_samples(v):
+        return np.where(cv >= 0, v[np.clip(cv, 0, None)], np.nan)
+    trans = 2
+    for name, f, want in (('project_cycles_to_samples', lambda: cs.project_cycles_to_samples(cycvals.copy(), cv.copy()), to_samples(cycvals)),
+                          ('project_subset_to_cycles', lambda: cs.project_subset_to_cycles(subvals.copy(), sv.copy()), sub_on_cyc),
+                          ('project_subset_to_samples', lambda: cs.project_subset_to_samples(subvals.copy(), sv.copy(), cv.copy()), to_samples(sub_on_cyc)),
+                          ('project_chain_to_subset', lambda: cs.project_chain_to_subset(chvals.copy(), chv.copy()), ch_on_sub),
+                          ('project_chain_to_cycles', lambda: cs.project_chain_to_cycles(chvals.copy(), chv.copy(), sv.copy()), ch_on_cyc),
+                          ('project_chain_to_samples', lambda: cs.project_chain_to_samples(chvals.copy(), chv.copy(), sv.copy(), cv.copy()), to_samples(ch_on_cyc))):
+        try:
+            got = np.asarray(f(), dtype=float).reshape(-1)
+        except Exception as e:
+            viols.append(('medium:%s:raise:%s' % (name, type(e).__name__), '%s: %s raised %r' % (d, name, e)))
+            continue
+        trans += 1
+        if got.shape != want.shape or not np.array_equal(got, want, equal_nan=True):
+            bad = np.where(~((got == want) | ((got != got) & (want != want))))[0] if got.shape == want.shape else []
+            viols.append(('medium:%s' % name, '%s: %s wrong (shape %r vs %r; first differing items %s: got %s expected %s)'
+                          % (d, name, got.shape, want.shape, list(bad[:3]), [got[i] for i in bad[:3]], [want[i] for i in bad[:3]])))
+    nontriv = 0 < nsub < K
+    return Outcome(cls='medium', transitions=trans, viols=viols, nontrivial=bool(nontriv))
+
+
 def giant_checks(cs, cv, sv, chv, s_, c, K):
     if True:
         checks = [('map_cycle_to_samples', arr(cs.map_cycle_to_samples(cv, c)), (2 * c,)),
@@ -143,6 +201,8 @@ def check_case(case):
     kind = case[0]
     if kind == 'giant':
         return check_giant(case)
+    if kind == 'medium':
+        return check_medium(case)
     sel = case[1]
     K = len(sel)
     viols = []
@@ -342,6 +402,6 @@ def snippet(case, kind):
 
 
 def nonvacuity(rep, ctx):
-    if not {'sel', 'struct', 'giant'} <= set(rep.classes):
+    if not {'sel', 'struct', 'giant', 'medium'} <= set(rep.classes):
         return ['vacuous: outcome classes %r' % dict(rep.classes)]
     return []
